@@ -151,3 +151,38 @@ package dtls
 //@ ensures c15-alert-wrapped-iff-peer-id-negotiated: is12(c) && called("Conn.writePackets!") ==> len(argAs("Conn.writePackets!", 2, []*dtlsflight.Packet{})) == 1
 //@    && atCall("Conn.writePackets!", argAs("Conn.writePackets!", 2, []*dtlsflight.Packet{})[0].ShouldWrapCID == (len(PEERCID(c)) > 0))
 //@ end
+
+// DTLS 1.2 receive side (RFC 9146 5/6): "an endpoint accepts a protected record only if it carries the endpoint's own
+// ID". A tls12_cid record (second result: the record was a connection-ID record) is handed on (third result) only
+// after its connection ID was compared byte-wise with the local one and found equal; the same holds for every
+// accepted record (an endpoint without a negotiated ID compares with the empty ID).
+//@ func Conn.decryptLegacyPacket
+//@ watch bytes.Equal
+//@ ensures c15-cid-record-carries-own-id: result1 && result2 ==> called("bytes.Equal") && retBool("bytes.Equal", 0) && sameSlice(argBytes("bytes.Equal", 1), header.ConnectionID)
+//@ ensures c15-accepted-record-carries-own-id: result2 ==> called("bytes.Equal") && retBool("bytes.Equal", 0)
+//@ ensures c15-cid-flag-is-content-type: result2 ==> result1 == (old(header.ContentType) == protocol.ContentTypeConnectionID)
+//@ end
+
+// Wiring of the migration machinery in the receive path (RFC 9146 6: "the address ... changes only after an authentic,
+// newest record arrived from a new address"): a record becomes a migration candidate only after it was handled without
+// error, and HandleCandidate is told the truth about it - the rrc negotiation flag of the association, whether the record
+// carried the connection ID, whether the record handler found it the newest, and its source address. The received bytes
+// are credited (amplification budget) to the source address with the datagram's size.
+// (Scope and the summary of prepareIncomingPacket: see verif_contracts_c08.go.)
+//@ func Conn.handleIncomingPacket
+//@ watch returnRoutabilityConn.HandleCandidate Conn.handleRecordContent Conn.bufferHandshakeRecord Manager.WrapReplayMarker
+//@ ensures c15-candidate-offered-at-most-once: ncalls("returnRoutabilityConn.HandleCandidate") <= 1
+//@ ensures c15-candidate-is-the-source: called("returnRoutabilityConn.HandleCandidate") ==> sameRef(argAs("returnRoutabilityConn.HandleCandidate", 5, rAddr), rAddr)
+//@ ensures c15-candidate-cid-flag-is-the-records: called("returnRoutabilityConn.HandleCandidate") ==> argBool("returnRoutabilityConn.HandleCandidate", 3) == PREP().originalCID
+//@ ensures c15-candidate-enabled-iff-negotiated: called("returnRoutabilityConn.HandleCandidate") ==> argBool("returnRoutabilityConn.HandleCandidate", 2) == old(S12(c).Common.RRCNegotiated)
+//@ ensures c15-candidate-newest-as-found-by-handler: called("returnRoutabilityConn.HandleCandidate") && called("Conn.handleRecordContent")
+//@    ==> argBool("returnRoutabilityConn.HandleCandidate", 4) == retBool("Conn.handleRecordContent", 0)
+//@ ensures c15-candidate-newest-as-found-by-buffering: called("returnRoutabilityConn.HandleCandidate") && !called("Conn.handleRecordContent")
+//@    ==> retBool("Conn.bufferHandshakeRecord", 1) && argBool("returnRoutabilityConn.HandleCandidate", 4) == retBool("Conn.bufferHandshakeRecord", 2)
+//@ ensures c15-failed-record-is-no-candidate: called("Conn.handleRecordContent") && retErr("Conn.handleRecordContent", 2) != nil ==> !called("returnRoutabilityConn.HandleCandidate")
+//@ ensures c15-alerting-record-is-no-candidate: result0.responseAlert != nil ==> !called("returnRoutabilityConn.HandleCandidate")
+//@ ensures c15-refused-record-is-no-candidate: !retBool("Conn.prepareIncomingPacket", 1) ==> !called("returnRoutabilityConn.HandleCandidate")
+//@ ensures c15-received-bytes-credited-to-source: called("Manager.WrapReplayMarker") ==> sameRef(argAs("Manager.WrapReplayMarker", 2, rAddr), rAddr)
+//@    && argInt("Manager.WrapReplayMarker", 3) == len(buf) && argBool("Manager.WrapReplayMarker", 5) == old(S12(c).Common.RRCNegotiated)
+//@ ensures c15-counting-marker-is-the-one-committed: called("Conn.handleRecordContent") ==> sameRef(argAs("Conn.handleRecordContent", 3, incomingPacketState{}).markPacketAsValid, retAs("Manager.WrapReplayMarker", 0, PREP().markPacketAsValid))
+//@ end
